@@ -22,6 +22,7 @@ use std::path::{Path, PathBuf};
 
 thread_local! {
     static COUNTER: Cell<u64> = Cell::new(0);
+    static KEPT: std::cell::RefCell<Vec<(String, Vec<u8>)>> = std::cell::RefCell::new(Vec::new());
 }
 
 struct CaseDir(PathBuf);
@@ -109,8 +110,13 @@ fn exec(ctx: &mut Option<Context>, script: &str, kind: &str, root_prefix: &str) 
                 match c2.variables.get("out").cloned() {
                     None => "N".to_string(),
                     Some(v) => match kind {
-                        "RB" => match handles(&mut c2).remove(&v) {
-                            Some(StateValue::ByteArray(b)) => format!("B{}", enc_bytes(&b)),
+                        // the handle is KEPT (a script may hold on to what it read): run_case checks after every later
+                        // operation that it still holds the bytes it held when it was handed out
+                        "RB" => match handles(&mut c2).get(&v) {
+                            Some(StateValue::ByteArray(b)) => {
+                                KEPT.with(|k| k.borrow_mut().push((v.clone(), b.clone())));
+                                format!("B{}", enc_bytes(b))
+                            }
                             _ => format!("X{}", enc_str("no byte array behind handle")),
                         },
                         "LS" => match handles(&mut c2).remove(&v) {
@@ -140,6 +146,7 @@ fn exec(ctx: &mut Option<Context>, script: &str, kind: &str, root_prefix: &str) 
         }
         Err(e) => {
             *ctx = Some(sdk_context(true));
+            KEPT.with(|k| k.borrow_mut().clear());
             format!("X{}", enc_str(&e.to_string()))
         }
     }
@@ -235,9 +242,24 @@ fn run_case(scratch: &str, ops: &[&str]) -> String {
                 continue;
             }
         };
-        let o = exec(&mut ctx, &script, kind, &prefix);
+        let mut o = exec(&mut ctx, &script, kind, &prefix);
+        // every byte-array handle read earlier in this history still holds what was read (what is read is a value, not a view
+        // of the file or of a later read)
+        let stale = KEPT.with(|k| {
+            let c = ctx.as_mut().unwrap();
+            let h = handles(c);
+            k.borrow().iter().any(|(name, bytes)| match h.get(name) {
+                Some(StateValue::ByteArray(b)) => b != bytes,
+                _ => true,
+            })
+        });
+        if stale {
+            o = format!("X{}", enc_str("a byte array read earlier changed or vanished"));
+            KEPT.with(|k| k.borrow_mut().clear());
+        }
         outs.push(format!("{}|{}", o, dump(&root)));
     }
+    KEPT.with(|k| k.borrow_mut().clear());
     drop(guard);
     outs.join("\t")
 }
